@@ -20,7 +20,7 @@ impl<'c, 'r, C: ZCol> Visitor<C> for V<'c, 'r> {
         let kind = desc.kind();
         let bb = d.bbox();
         let case = || desc.text();
-        let budget = (bb.size.width as u64 + 300) * (bb.size.height as u64 + 300) * 8 + 4096;
+        let budget = (bb.size.width as u64 + 300) * (bb.size.height as u64 + 300) * 8 + 4096 + desc.overlap_allowance();
         let mut a = IterTarget::<C>::new(unbounded_box());
         let mut b = NativeTarget::<C>::new(unbounded_box());
         a.log.budget = budget;
